@@ -85,6 +85,7 @@ def parsePort : String → Option Port
 def parseOp (line : String) : Option Op :=
   match NV.Proto.toks line with
   | ["iflag", "single"] => some .iflagSingle
+  | ["iflag", "line"] => some .iflagLine
   | ["send", h] => (unhex h).map .send
   | ["read"] => some .read
   | ["chunk", h] => (unhex h).map .chunk
